@@ -23,8 +23,17 @@ Props/C20) + OBSERVED real deployment.  Three parts:
      `Network.start()/running/stop()` with OS processes and TCP on free ports
      from a temp config, PB `check_connections` at every virtual node, an SDK
      program and an EPR pair over the real QNodeOS sockets, stop, every process
-     gone, every port free, start again.  Tied to the model at the level of
+     gone, every port free, start again; in marked cycles start() is called a
+     second time on the running network.  Tied to the model at the level of
      theorem `stop_then_start_comes_up`.
+(a3) in-memory, oracle only: an operation that needs a peer (get_connection,
+     send_qubit) issued while that peer's virtual node stays down for less /
+     exactly / more than one and two retry periods (`_mem_pending_op`).
+
+Processes are judged over EVERY process object ever created (fake
+`multiprocessing.Process` registry in (a); `multiprocessing.active_children()`
+in (b)), not only over `Network.processes`: at most one live process per
+(node, role) at any time, none after stop().
 
 Oracle (independent of the model): see `_judge_mem_final`, `_judge_deploy`.
 """
@@ -158,6 +167,7 @@ class FakeProcess:
         self.exitcode = None
         self._alive = False
         self.up = False            # harness: the body has been run
+        FakeProcess.mp.created.append(self)      # EVERY process object ever made, whether or not Network keeps it
 
     def start(self):
         assert self._popen is None, "cannot start a process twice"       # multiprocessing/process.py
@@ -189,6 +199,7 @@ class FakeMP:
     def __init__(self):
         self.pid = 1000
         self.launches = {}
+        self.created = []
         FakeProcess.mp = self
 
     def set_start_method(self, *a, **k):
@@ -431,6 +442,32 @@ class MemWorld:
         self._reset_reactor()
 
 
+def _census(world):
+    """oracle over EVERY process object ever created (not only `Network.processes`):
+    -> ({name: number of live processes with that name, if > 1}, [names of live processes Network no longer lists])"""
+    live = [p for p in world.mp.created if p.is_alive()]
+    per = {}
+    for p in live:
+        per[p.name] = per.get(p.name, 0) + 1
+    table = set(map(id, world.net.processes))
+    return {nm: k for nm, k in per.items() if k > 1}, [p.name for p in live if id(p) not in table]
+
+
+def _census_problems(world, prefix, after):
+    """the two clauses of the statement that need the whole census: at any time at most one live process per
+    (node, role); after stop() none at all"""
+    dups, orphans = _census(world)
+    bad = []
+    if dups:
+        bad.append((prefix + ":duplicate-process", "after %s: more than one live process for %s (live processes that "
+                    "Network.processes no longer lists: %s)" % (after, sorted(dups.items()), sorted(orphans))))
+    if after == "stop" and orphans:
+        bad.append((prefix + ":stop-leaves-alive:orphan", "after stop: %s still alive; they were started by this Network "
+                    "but dropped from Network.processes, so stop() never terminates them (they keep their ports)" % (
+                        sorted(orphans),)))
+    return bad
+
+
 def _key_line(k):
     return "resolveQ %d" % k[0] if k[2] else "resolveP %d %d" % (k[0], k[1])
 
@@ -472,11 +509,14 @@ class MemRun:
                 self.dead = True
             elif not all(p.is_alive() for p in w.net.processes):
                 self.viol.append(("mem:start-leaves-dead", "processes not alive after start: %s" % o))
+            if not self.dead:
+                self.viol += _census_problems(w, "mem", "start")
         elif mop == "netstop":
             o = self._do(mop)
             self.rounds = None
             if any(p.is_alive() for p in w.net.processes):
                 self.viol.append(("mem:stop-leaves-alive", "processes alive after stop: %s" % o))
+            self.viol += _census_problems(w, "mem", "stop")
         elif mop == "settle":
             rounds = 0
             while rounds < 4:
@@ -536,18 +576,25 @@ def _mem_exec(n, retry, mops):
     return run
 
 
-def _mem_scenario(res, ctx, n, retry, orders, policy):
+def _mem_scenario(res, ctx, n, retry, orders, policy, again=None):
     """one world: per cycle netstart -> the 2n bodies in the given order, the adversary deciding attempts and
-    moving the clock per `policy` -> settle -> running -> netstop"""
+    moving the clock per `policy` -> settle -> running -> netstop.  again = (cycle, k): in that cycle start() is called
+    once more on the RUNNING network after k of the bodies ran (it must leave everything alone)"""
     rng = ctx.rng
     run = MemRun(n, retry)
     w = run.world
     try:
-        for order in orders:
+        for c, order in enumerate(orders):
             run.do("netstart")
             if run.dead:
                 break
-            for ev in order:
+            for j, ev in enumerate(list(order) + [None]):
+                if again is not None and again[0] == c and again[1] == j:
+                    run.do("netstart")
+                    if run.dead:
+                        break
+                if ev is None:
+                    break
                 run.do(ev)
                 if policy == "eager":
                     for k in w.open_keys():
@@ -566,6 +613,98 @@ def _mem_scenario(res, ctx, n, retry, orders, policy):
     finally:
         run.finish()
     return run
+
+
+def _mem_pending_op(n, retry, op, off, down, peer):
+    """C20: 'programs run against it behave as in C01/C08 ... for every order and spacing in which the node processes
+    come up (peers not yet listening when a node tries to connect) ... without waiting for readiness'.
+
+    Node 0's virtual node is up; `off` clock units later an operation that needs node `peer` is issued at node 0
+    (`get_connection(peer)` itself, or new_qubit + X + send_qubit(peer) as the PB server would dispatch them); the
+    peer's virtual node comes up only `down` units after that (every connect attempt in between is refused, as on a
+    closed port), then everybody else, and all attempts are decided as they come.  Oracle: the operation never
+    fails, and it has completed within 3 retry periods + 4 units after the last process came up (for send_qubit:
+    the peer then holds the qubit and measures 1, the sender holds none).  Not tied to the model (it has no
+    operations); the adversary's moves are the same `MemWorld.op` lines as in (a1).  -> [(key, what)]"""
+    from twisted.internet import defer
+    w = MemWorld(n, retry)
+    bad = []
+    res = []
+    try:
+        w.op("netstart")
+        w.op("startV 0")
+
+        def decide():
+            for k in w.open_keys():
+                w.op(_key_line(k))
+
+        def step():
+            w.op("tick 1")
+            decide()
+        decide()
+        for _ in range(off):
+            step()
+        nd = w.nodes[0]
+        target = w.names[peer]
+        if op == "get_connection":
+            d = defer.maybeDeferred(nd.get_connection, target)
+        else:
+            @defer.inlineCallbacks
+            def prog():
+                q = yield defer.maybeDeferred(nd.remote_new_qubit)
+                yield defer.maybeDeferred(q.remote_apply_X)
+                num = yield defer.maybeDeferred(nd.remote_send_qubit, q, target)
+                return num
+            d = prog()
+        d.addBoth(res.append)
+        w._pump()
+        for _ in range(down):
+            step()
+        early = bool(res)
+        for i in [peer] + [j for j in range(1, n) if j != peer]:
+            w.op("startV %d" % i)
+            decide()
+        for i in range(n):
+            w.op("startQ %d" % i)
+            decide()
+        for _ in range(3 * retry + 4):
+            if res and not w.open and not w.timers():
+                break
+            step()
+        what = "%s(%s) issued at %s %d/16 s after its virtual node came up, %s's virtual node came up %d/16 s later " \
+               "(retry period %d/16 s)" % (op, target, w.names[0], off, target, down, retry)
+        if not res:
+            bad.append(("mem:op-before-peer-up:%s:never-completes" % op, what + ": no result %d/16 s after everything is "
+                        "up; conn=%s open=%s timers=%s" % (3 * retry + 4, w.conn_of(0), w.open_keys(), w.timers())))
+        elif isinstance(res[0], w.b.Failure):
+            bad.append(("mem:op-before-peer-up:%s:fails" % op, what + ": failed with %s: %s%s" % (
+                res[0].type.__name__, res[0].getErrorMessage()[:120], " (before the peer was up)" if early else "")))
+        elif op == "get_connection":
+            if getattr(res[0], "name", None) != target or getattr(res[0], "root", None) is None:
+                bad.append(("mem:op-before-peer-up:get_connection:wrong-result", what + ": returned %r" % (res[0],)))
+        else:
+            pn = w.nodes.get(peer)
+            held = [len(w.nodes[i].virtQubits) if i in w.nodes else None for i in range(n)]
+            want = [1 if i == peer else 0 for i in range(n)]
+            if held != want or not isinstance(res[0], int):
+                bad.append(("mem:op-before-peer-up:send_qubit:qubit-lost", what + ": returned %r, qubits held per node %s" % (
+                    res[0], held)))
+            else:
+                out = []
+                dm = defer.maybeDeferred(pn.virtQubits[0].remote_measure, False)
+                dm.addBoth(out.append)
+                w._pump()
+                for _ in range(4):
+                    if out:
+                        break
+                    step()
+                if out != [1]:
+                    bad.append(("mem:op-before-peer-up:send_qubit:wrong-state", what + ": the qubit (X|0>) measured %r at %s" % (
+                        out, target)))
+        bad += [(k, what + ": " + t) for k, t in w.problems]
+    finally:
+        w.close()
+    return bad
 
 
 def _ddmin(items, fails):
@@ -629,6 +768,7 @@ def _table_scenario(res, ctx, n, ops):
                     outs.append(obs())
                     if not all(p.is_alive() for p in world.net.processes):
                         viol.append(("table:start-leaves-dead", obs()))
+                    viol += _census_problems(world, "table", "start")
                 except AssertionError as e:
                     outs.append("AssertionError " + obs())
                     viol.append(("start-after-stop:AssertionError",
@@ -641,6 +781,7 @@ def _table_scenario(res, ctx, n, ops):
                 outs.append(obs())
                 if any(p.is_alive() for p in world.net.processes):
                     viol.append(("table:stop-leaves-alive", obs()))
+                viol += _census_problems(world, "table", "stop")
             else:
                 k = int(op.split()[1])
                 lines.append("tdie %d" % k)
@@ -770,6 +911,28 @@ def _judge_deploy(spec, events, leftovers):
         cyc["alive_after_start"] = st["alive"]
         if not all(st["alive"]) or len(st["alive"]) != 2 * n:
             viol.append(("deploy:process-not-alive", "cycle %d: alive flags after start %s" % (c, st["alive"])))
+
+        def dups(children):
+            names_ = [nm for nm, _pid in children or []]
+            return sorted({nm for nm in names_ if names_.count(nm) > 1})
+        if dups(st.get("children")):
+            viol.append(("deploy:duplicate-process", "cycle %d: after start() the live child processes are %s" % (
+                c, st["children"])))
+        rs = by.get(("restarted", c))
+        if c in (spec.get("double_start") or []):
+            if rs is None:
+                viol.append(("deploy:cycle-missing", "cycle %d: no observation after the second start()" % c))
+            else:
+                if rs["exc"]:
+                    viol.append(("deploy:start-on-running-raises", "cycle %d: start() on the running network raised %s" % (
+                        c, rs["exc"])))
+                if dups(rs.get("children")):
+                    viol.append(("deploy:duplicate-process", "cycle %d: start() on the RUNNING network launched a second "
+                                 "set of processes: live children %s (Network.processes had pids %s, now %s)" % (
+                                     c, rs["children"], rs["pids_before"], rs["pids"])))
+                elif rs["pids"] != rs["pids_before"] or not all(rs["alive"]):
+                    viol.append(("deploy:start-on-running-replaces", "cycle %d: start() on the running network changed "
+                                 "Network.processes: pids %s -> %s alive=%s" % (c, rs["pids_before"], rs["pids"], rs["alive"])))
         if c not in early:
             ru = by.get(("running", c))
             if spec["wait"] and st["running"] is not True:
@@ -810,6 +973,10 @@ def _judge_deploy(spec, events, leftovers):
         if any(sp["alive"]) or not all(sp["pid_gone"]):
             viol.append(("deploy:stop-leaves-process", "cycle %d: alive=%s pid_gone=%s" % (
                 c, sp["alive"], sp["pid_gone"])))
+        elif sp.get("children") or sp.get("ever_alive"):
+            viol.append(("deploy:stop-leaves-process:orphan", "cycle %d: after stop() every process in Network.processes is "
+                         "gone, but child processes started by this Network are still alive: %s" % (
+                             c, sp.get("children") or sp.get("ever_alive"))))
         for nm, ps in sp["ports"].items():
             for kind, (accepts, bind_reuse, _bind_strict) in ps.items():
                 if accepts or not bind_reuse:
@@ -860,8 +1027,11 @@ def run(ctx):
     rng = ctx.rng
     res.rule = ("(a1) in-memory bring-up: every order of the 2n process starts for n<=3 (thorough: n<=4 sampled 3000 + "
                 "n=5 sampled) x policies eager/lazy/random resolve+tick interleaving x retry time in {1,4,8,16}/16 s, "
-                "2 start/stop cycles each, state compared with the model after every event; (a2) process table: random "
-                "start/stop/crash histories n=1..5; (b) real deployment in child processes. non-trivial = n>=2; "
+                "2 start/stop cycles each (a third of them with start() called once more on the running network), state "
+                "compared with the model after every event; (a2) process table: random start/stop/crash histories n=1..5 "
+                "incl. start on a running network; (a3) get_connection / send_qubit issued while the peer stays down for "
+                "0..3 retry periods; (b) real deployment in child processes incl. start(wait); start; stop and start; "
+                "start; stop. Processes judged over every process object ever created. non-trivial = n>=2; "
                 "distinct by (n, retry, policy, op list) resp. deployment spec")
     violations = {}      # key -> (what, replay) smallest first
 
@@ -888,12 +1058,16 @@ def run(ctx):
                 for wait in (True, False):
                     names = ["Alice", "Bob", "Charlie", "David", "Eve"][:n]
                     deploy_specs.append({"names": names, "wait": wait, "cycles": 3, "program": "sdk" if wait else "pb",
-                                         "epr": n >= 2 and wait, "stop_early": [] if wait else [1]})
+                                         "epr": n >= 2 and wait, "stop_early": [] if wait else [1],
+                                         "double_start": [0, 2] if wait else [1]})
         else:
             deploy_specs = [
-                {"names": ["Alice", "Bob"], "wait": True, "cycles": 2, "program": "both", "epr": True, "stop_early": []},
+                # cycle 0: start(wait); start; programs; stop
+                {"names": ["Alice", "Bob"], "wait": True, "cycles": 2, "program": "both", "epr": True, "stop_early": [],
+                 "double_start": [0]},
+                # cycle 1: start; start; stop at once
                 {"names": ["N0", "N1", "N2"], "wait": False, "cycles": 3, "program": "pb", "epr": False,
-                 "stop_early": [1]},
+                 "stop_early": [1], "double_start": [1]},
             ]
     deploy_results = [None] * len(deploy_specs)
 
@@ -936,7 +1110,7 @@ def run(ctx):
         for key, what in viol:
             add_viol(key, "real deployment (%d nodes, wait=%s): %s" % (len(spec["names"]), spec["wait"], what),
                      {"kind": "deploy", "spec": spec, "events": [e for e in events if e.get("ev") in (
-                         "started", "stopped", "running", "connected")][:8], "stderr_tail": err_tail[-400:]})
+                         "started", "restarted", "stopped", "running", "connected")][:8], "stderr_tail": err_tail[-400:]})
         lines, want = _deploy_model_lines(spec, summary)
         batches.append((lines, want, case, "deploy"))
 
@@ -993,8 +1167,10 @@ def _run_mem(ctx, res, rng, add_viol, batches, extra):
     def starts(n):
         return ["startV %d" % i for i in range(n)] + ["startQ %d" % i for i in range(n)]
 
-    def mem(n, retry, orders, policy, tag):
-        run = _mem_scenario(res, ctx, n, retry, orders, policy)
+    def mem(n, retry, orders, policy, tag, again=None):
+        run = _mem_scenario(res, ctx, n, retry, orders, policy, again)
+        if again is not None:
+            res.count("mem-start-on-running-network")
         case = {"n": n, "retry": retry, "policy": policy, "ops": run.mops}
         res.case(case, nontrivial=n >= 2)
         res.count("mem-n%d-%s" % (n, policy))
@@ -1018,6 +1194,10 @@ def _run_mem(ctx, res, rng, add_viol, batches, extra):
             for key, what in viol:
                 add_viol(key, what, inp)
             batches.append((lines, outs, {"replay": True}, "mem"))
+        elif inp.get("kind") == "memop":
+            res.case({"replay": inp})
+            for key, what in _mem_pending_op(inp["n"], inp["retry"], inp["op"], inp["off"], inp["down"], inp["peer"]):
+                add_viol(key, what, inp)
         return
 
     # smallest scenario first: it is the minimal replay of a start/stop/start defect
@@ -1028,6 +1208,15 @@ def _run_mem(ctx, res, rng, add_viol, batches, extra):
     batches.append((lines, outs, {"table": 1}, "mem"))
     if probe:
         extra.append((probe, outs[-1], {"table": 1}))
+    # start() on a network that is already running, then stop(): judged over every process object ever created
+    for n, ops in ((1, ["start", "start", "stop"]), (1, ["start", "start", "stop", "start", "start", "stop"]),
+                   (3, ["start", "start", "stop", "start", "stop"]), (2, ["start", "die 1", "start", "start", "stop"])):
+        lines, outs, viol, probe = _table_scenario(res, ctx, n, ops)
+        res.case({"table": n, "ops": ops}, nontrivial=n >= 2)
+        res.count("table-start-on-running-network")
+        for key, what in viol:
+            add_viol(key, "process table, %d node(s): %s" % (n, what), {"kind": "table", "n": n, "ops": ops})
+        batches.append((lines, outs, {"table": n, "ops": ops}, "mem"))
 
     # (a1) exhaustive orders for n <= 3
     retries = [8, 1, 4, 16]
@@ -1037,8 +1226,10 @@ def _run_mem(ctx, res, rng, add_viol, batches, extra):
             for policy in ("eager", "lazy"):
                 retry = retries[count % 4]
                 count += 1
+                # every third world: start() once more on the running network, at a position that moves through the cycle
+                again = (count % 2, (count // 3) % (2 * n + 1)) if count % 3 == 0 else None
                 # second cycle: the reversed order, so every world also exercises stop -> start
-                mem(n, retry, [list(order), list(reversed(order))], policy, "exhaustive")
+                mem(n, retry, [list(order), list(reversed(order))], policy, "exhaustive", again)
     res.exhaustive = True
     res.notes.append("exhaustive: all %d start orders for n=1,2,3 x {eager,lazy}" % (2 + 24 + 720))
     # random orders / spacings
@@ -1049,7 +1240,27 @@ def _run_mem(ctx, res, rng, add_viol, batches, extra):
                 o = starts(n)
                 rng.shuffle(o)
                 orders.append(o)
-            mem(n, rng.choice(retries), orders, rng.choice(["random", "random", "eager", "lazy"]), "random")
+            again = (rng.randrange(2), rng.randrange(2 * n + 1)) if rng.random() < 0.3 else None
+            mem(n, rng.choice(retries), orders, rng.choice(["random", "random", "eager", "lazy"]), "random", again)
+
+    # (a3) an operation that needs a peer is issued while that peer's virtual node stays down for `down` clock units
+    # (less than, exactly, and MORE than one / two retry periods): it must complete once the peer is up
+    todo = []
+    for n in (2, 3):
+        for retry in retries:
+            for op in ("get_connection", "send_qubit"):
+                for down in sorted({0, 1, retry, retry + 1, 2 * retry, 2 * retry + 1, 3 * retry + 2}):
+                    todo.append((n, retry, op, (down * 7 + n) % max(1, retry), down, 1 + (down + retry) % (n - 1)))
+    for _ in range(ctx.scale(20, 400)):
+        n, retry = rng.choice([2, 3, 4]), rng.choice(retries)
+        todo.append((n, retry, rng.choice(["get_connection", "send_qubit"]), rng.randrange(retry), rng.randrange(4 * retry + 2),
+                     rng.randrange(1, n)))
+    for (n, retry, op, off, down, peer) in todo:
+        inp = {"kind": "memop", "n": n, "retry": retry, "op": op, "off": off, "down": down, "peer": peer}
+        res.case(inp, nontrivial=True)
+        res.count("memop-%s-down-%s-retry-periods" % (op, "more-than-1" if down > retry else "at-most-1"))
+        for key, what in _mem_pending_op(n, retry, op, off, down, peer):
+            add_viol(key, "in-memory, %d nodes, retry %d/16 s: %s" % (n, retry, what), inp)
 
     # (a2) process-table histories
     for _ in range(ctx.scale(150, 2000)):
